@@ -477,6 +477,14 @@ S["async_in_group"] = dict(
           T("M1", 1, group="g", **{"async": {"0": [("set", "A.e", "mi")], "1": [("set", "A.e", "mi")]}})],
     conns=[dict(src="A", dst="M1", sattr="po", dattr="mi", **{"async": True})])
 
+# set_initial_event called twice for one simulator ("an initial step": the last call counts)
+S["two_initial_events_desc"] = dict(
+    until=5, sims=[E("A", init_event=[3, 1], next=[None], emit_default=0), E("B")],
+    conns=[C("A", "B", "eo", "ti")])
+S["two_initial_events_asc"] = dict(
+    until=5, sims=[E("A", init_event=[1, 3], next=[None], emit_default=0), E("B"), T("X")],
+    conns=[C("A", "B", "eo", "ti")])
+
 # an idle event-based simulator in the middle of two async_requests connections: it never steps,
 # so bookkeeping that refers to "its last step" refers to a step that does not exist
 S["async_idle_middle"] = dict(
